@@ -235,9 +235,16 @@ func (db *DB) collectGarbage() (collectedCount uint64, done bool, err error) {
 	releasedCount := uint64(0)
 	for _, item := range recycledItems {
 		// delete from retrieve, gc
-		err = db.retrievalDataIndex.DeleteInBatch(batch, item)
+		// (the root chunk stays if it is pinned; only its gc bookkeeping goes)
+		pinned, err := db.pinIndex.Has(item)
 		if err != nil {
 			return 0, false, err
+		}
+		if !pinned {
+			err = db.retrievalDataIndex.DeleteInBatch(batch, item)
+			if err != nil {
+				return 0, false, err
+			}
 		}
 		err = db.retrievalAccessIndex.DeleteInBatch(batch, item)
 		if err != nil {
